@@ -771,3 +771,59 @@ Proof.
   - intros [D _]. vm_compute in D. discriminate.
   - split; [reflexivity|]. split; [reflexivity|]. exists 2, 51. split; [discriminate|]. split; reflexivity.
 Qed.
+
+(* ---------- two contacts with the SAME identity key ---------- *)
+(* the identities table is a map contact -> key and saveIdentity for c touches the row of c only *)
+Lemma save_identity_other ids c k c0 : c <> c0 -> lookup c0 (save_identity ids c k) = lookup c0 ids.
+Proof. intros H. unfold save_identity. apply lookup_upd_other. exact H. Qed.
+
+(* whatever a step does for ANOTHER contact - a bundle or first message of c0 presenting the very key k that is
+   remembered for c included - the remembered key of c stays (auto-trust off; this is pin_immutable for one step,
+   stated to make the equal-key case explicit) *)
+Theorem shared_key_pin_kept_thm : forall a i c k,
+  a_auto a = false -> durable a -> i <> IWipe ->
+  lookup c (a_ids a) = Some k -> lookup c (a_ids (fst (step a i))) = Some k.
+Proof.
+  intros a i c k Hf Hd Hi H.
+  assert (Hw : no_wipe [i]) by (constructor; [exact Hi | constructor]).
+  pose proof (pin_immutable_thm a [i] c k Hf Hd Hw H) as P. cbn [run] in P.
+  destruct (step a i) as [a1 o]. exact P.
+Qed.
+
+(* contacts 7 and 8 hold the same key 1 (8 = the same installation under a second number): 7 is learnt by a send,
+   8 by its first message.  Restart.  7 reinstalls (key 2): the retry bundle is refused (per-jid error), 7's first
+   message is ignored.  Then 8 changes to key 3: its first message is ignored too.  Both pins stay at key 1, and 8
+   - whose key did not change - keeps talking to us in between. *)
+Definition history_shared_key : list input :=
+  [ IAppSend 7 1; IKeys 0 [(7, (1, 50))];
+    IMsg 8 2 (mkE EPk 60 0 1 true false 2);
+    IRestart;
+    IAppSend 7 3; IReceipt 7 3 true; IKeys 1 [(7, (2, 51))];
+    IMsg 7 4 (mkE EPk 61 0 2 true false 4);
+    IMsg 8 5 (mkE EMsg 60 1 0 true false 5);
+    IMsg 8 6 (mkE EPk 62 0 3 true false 6) ].
+
+Example shared_key_history_no_autotrust :
+  snd (run (init false) history_shared_key) =
+  [ [OGetKeys 0 7]; [OMsg 7 1 EPk 50 0 1];
+    [ODeliver 8 2 2; OReceipt 8 2];
+    [];
+    [OMsg 7 3 EPk 50 1 1]; [OGetKeys 1 7]; [OErr 7];
+    [];
+    [ODeliver 8 5 5; OReceipt 8 5];
+    [] ]
+  /\ lookup 7 (a_ids (fst (run (init false) history_shared_key))) = Some 1
+  /\ lookup 8 (a_ids (fst (run (init false) history_shared_key))) = Some 1.
+Proof. vm_compute. repeat split; reflexivity. Qed.
+
+(* the variant whose save also drops the rows of other contacts holding the same key (seeded defect C17-4): saving
+   key k for contact c makes contact c0, remembered with k, unknown - any identity is then trusted for c0 - whereas
+   the save of the code as it is leaves c0's row alone *)
+Example save_identity_exclusive_refuted :
+  exists ids c c0 k k',
+    c <> c0 /\ k' <> k /\ lookup c0 ids = Some k /\ trusted ids c0 k' = false /\
+    lookup c0 (save_identity_exclusive ids c k) = None /\ trusted (save_identity_exclusive ids c k) c0 k' = true /\
+    lookup c0 (save_identity ids c k) = Some k /\ trusted (save_identity ids c k) c0 k' = false.
+Proof.
+  exists [(7, 1)], 8, 7, 1, 2. vm_compute. repeat split; try reflexivity; discriminate.
+Qed.
